@@ -71,7 +71,7 @@ import LitexProofs.Periph.Bone
     SPIMaster.add_csr / add_clk_divider          CSR fields wired 1:1 to the control signals (same model)     A/B instances `csr=True`, `default_div`
   litex/soc/cores/spi/spi_slave.py
     SPISlave                spiSlave/slvNext     spi_slave_xfer, spi_slave_pads, shiftIn_word, spi_slave_capture,
-                                                 spi_slave_miso_sequence                        A dw 2 (bounded: 8-bit length counter; dw 1 complete in the
+                                                 spi_slave_miso_sequence, spi_slave_word_stable_while_deselected     A dw 2 (bounded: 8-bit length counter; dw 1 complete in the
                                                                                                 thorough tier), B 6 inst, M
     SPIMaster ↔ SPISlave    spiLink = linkStep (the two cores pad to pad)
                                                  spi_link_mosi, spi_link_slave_idle, spi_link_miso_partial (div ≥ 8; witness at 7),
@@ -2546,5 +2546,50 @@ example :
 /-- Negative witness for the old strobe: `source.valid ∧ source.ready` does not imply a pop. -/
 example : ¬ ∀ st : UartFlushSt, flushPopOld st true = true :=
   fun h => absurd (h ⟨⟨⟨[], true, tokN 0x42⟩, ⟨[], false, zTokN⟩⟩, 0, 1⟩) (by decide)
+
+/-! ## SPI slave: the received word is untouched while the slave is deselected -/
+
+/-- **spi_slave_word_stable_while_deselected.**  Shared bus: once chip select has been seen released through the
+    synchroniser (`s0 = s1 = 0`, i.e. `cs_n` high on the pads for the last two cycles — `spi_slave_pads`), **any** activity
+    on `pads.clk` / `pads.mosi` (traffic to another slave), any `loopback` and any word-to-send, for as long as `cs_n` stays
+    high: the received word `self.mosi` keeps its value, the slave stays deselected, and once the FSM is back in IDLE
+    (`xfer = 0`, from the second cycle on in any case) `length` keeps its value too: what software reads after `irq` is
+    the word of *that* transfer until the next one starts.  (`spi_slave_xfer` / `spi_slave_capture` quantify over the
+    cycles in which chip select is asserted; this theorem covers all the others.) -/
+theorem spi_slave_word_stable_while_deselected (dw : Nat) (s : SlvSt) (hs0 : s.s0 = false) (hs1 : s.s1 = false)
+    (ins : List SlvIn) (h : ∀ i ∈ ins, i.csN = true) :
+    let e := (spiSlave dw).runFrom s ins
+    e.rx = s.rx ∧ e.s0 = false ∧ e.s1 = false ∧ (s.xfer = false → e.length = s.length ∧ e.xfer = false) ∧
+    (ins ≠ [] → e.xfer = false) ∧
+    (∀ j, ((spiSlave dw).out e j).rx = s.rx ∧ ((spiSlave dw).out e j).start = false) := by
+  induction ins generalizing s with
+  | nil =>
+    refine ⟨rfl, hs0, hs1, fun hx => ⟨rfl, hx⟩, fun hne => absurd rfl hne, fun j => ⟨rfl, ?_⟩⟩
+    show (!s.xfer && s.s1) = false
+    rw [hs1]; simp
+  | cons i is ih =>
+    have hi := h i (by simp)
+    have n0 : (slvNext dw s i).s0 = false := by simp [slvNext, hi]
+    have n1 : (slvNext dw s i).s1 = false := by simp [slvNext, hs0]
+    have nrx : (slvNext dw s i).rx = s.rx := by simp [slvNext, hs1]
+    have nx : (slvNext dw s i).xfer = false := by simp [slvNext, hs1]
+    have nl : s.xfer = false → (slvNext dw s i).length = s.length := by
+      intro hx; simp [slvNext, hx, hs1]
+    have := ih (slvNext dw s i) n0 n1 (fun j hj => h j (by simp [hj]))
+    simp only at this
+    obtain ⟨a, b, c, d, _, f⟩ := this
+    show _ ∧ _
+    rw [slv_runFrom_cons]
+    refine ⟨by rw [a, nrx], b, c, fun hx => ?_, fun _ => (d nx).2, fun j => ?_⟩
+    · have := d nx
+      exact ⟨by rw [this.1, nl hx], this.2⟩
+    · have := f j
+      exact ⟨by rw [this.1, nrx], this.2⟩
+
+/-- Non-vacuity: a received word 0b101 survives eight cycles of foreign clock/MOSI activity with `cs_n` high. -/
+example :
+    let s : SlvSt := ⟨false, false, false, false, false, false, false, false, 3, 0, 0b101⟩
+    let foreign : List SlvIn := (List.range 8).map fun k => ⟨k % 2 == 1, true, k % 3 == 0, 7, false⟩
+    ((spiSlave 3).runFrom s foreign).rx = 0b101 ∧ ((spiSlave 3).runFrom s foreign).length = 3 := by decide
 
 end Litex.C19
